@@ -815,6 +815,7 @@ var catalogue = []string{
 	`Object[{name => 'Verif::Pair', attributes => {a => Any, b => Any}}]`,
 	`Object[{name => 'Verif::Box', attributes => {v => {type => Any, value => undef}}}]`,
 	`Object[{name => 'Verif::Unit'}]`,
+	`Object[{name => 'Verif::P', type_parameters => {p => Integer}, attributes => {a => Integer, p => {type => Optional[Integer], value => undef}}}]`,
 }
 
 func ensureCatalogue(c px.Context) {
